@@ -14,7 +14,7 @@ use crate::refs::merkle::H;
 use crate::refs::xorb as rx;
 use crate::session::{file_strategy, run_history, Elem, FileSpec, History, HistoryObs, RunOpts, SessionSpec};
 
-pub const RULE: &str = "histories on one client: 1-2 sessions uploading fresh chunk-pool files (sub-chunk .. multi-xorb, one or many per session), then 1-3 later sessions that re-upload earlier files unchanged (new add_data partitions), extended by fresh chunks, or recombined from spans of several earlier files; each later session runs either in the same process state or after a simulated client restart (state re-loaded from the shard cache directory); xorb / shard limits per child-process configuration so that data lands in mid-file xorbs, session-level cuts and the final aggregated xorb. Oracle: (1) after every finalized session each xorb file newly present in the store has its full chunk list recorded in the CAS section of a shard in the client's shard cache; (2) for every later session, with K = chunk hashes held by the store before it: new_bytes <= bytes of chunk occurrences outside K + bytes withheld by fragmentation prevention, and a session all of whose chunks are in K with nothing withheld reports new_bytes = 0 and creates no xorb file. non-trivial = a later session made only of stored chunks that came from >= 2 xorbs, one of them a session's final aggregated xorb; distinct by fingerprint of the generated case";
+pub const RULE: &str = "histories on one client machine (sessions run by the long-lived process or by a second process that shares the client's shard cache directory through its own shard-manager instances): 1-2 sessions uploading fresh chunk-pool files (sub-chunk .. multi-xorb, one or many per session), then 1-3 later sessions that re-upload earlier files unchanged (new add_data partitions), extended by fresh chunks, or recombined from spans of several earlier files; each later session runs either in the same process state or after a simulated client restart (state re-loaded from the shard cache directory); xorb / shard limits per child-process configuration so that data lands in mid-file xorbs, session-level cuts and the final aggregated xorb. Oracle: (1) after every finalized session each xorb file newly present in the store has its full chunk list recorded in the CAS section of a shard in the client's shard cache; (2) for every later session, with K = chunk hashes held by the store before it: new_bytes <= bytes of chunk occurrences outside K + bytes withheld by fragmentation prevention, and a session all of whose chunks are in K with nothing withheld reports new_bytes = 0 and creates no xorb file. non-trivial = a later session made only of stored chunks that came from >= 2 xorbs, one of them a session's final aggregated xorb; distinct by fingerprint of the generated case";
 
 pub const ASSUMPTIONS: &[&str] = &[
     "all sessions of a history run on the same client (the property is about sessions sharing the local shard cache)",
@@ -36,6 +36,9 @@ pub enum Derive {
 pub struct Later {
     pub files: Vec<(Derive, Vec<(u8, u16)>)>,
     pub restart_before: bool,
+    /// run by another process of the same client (own shard-manager instances, shared cache directory)
+    #[serde(default)]
+    pub peer: bool,
 }
 
 #[derive(Clone, Debug, Serialize, Deserialize)]
@@ -44,6 +47,9 @@ pub struct C11Case {
     pub n_ids: u16,
     pub first: Vec<Vec<FileSpec>>,
     pub later: Vec<Later>,
+    /// which of the first sessions are run by another process of the same client
+    #[serde(default)]
+    pub first_peer: Vec<bool>,
 }
 
 fn derive_strategy() -> impl Strategy<Value = Derive> {
@@ -60,12 +66,13 @@ fn case_strategy() -> impl Strategy<Value = C11Case> {
         prop_oneof![24u16..200, 200u16..2000],
         proptest::collection::vec(proptest::collection::vec(file_strategy(false), 1..5), 1..3),
         proptest::collection::vec(
-            (proptest::collection::vec((derive_strategy(), proptest::collection::vec((0u8..8, any::<u16>()), 0..4)), 1..4), proptest::bool::weighted(0.4))
-                .prop_map(|(files, restart_before)| Later { files, restart_before }),
+            (proptest::collection::vec((derive_strategy(), proptest::collection::vec((0u8..8, any::<u16>()), 0..4)), 1..4), proptest::bool::weighted(0.4), proptest::bool::weighted(0.3))
+                .prop_map(|(files, restart_before, peer)| Later { files, restart_before, peer }),
             1..4,
         ),
+        proptest::collection::vec(proptest::bool::weighted(0.3), 2),
     )
-        .prop_map(|(pool_seed, n_ids, first, later)| C11Case { pool_seed, n_ids, first, later })
+        .prop_map(|(pool_seed, n_ids, first, later, first_peer)| C11Case { pool_seed, n_ids, first, later, first_peer })
 }
 
 /// xorb file name -> chunk (hash, len) list, via the reference decoder
@@ -102,8 +109,8 @@ fn oracle(c: &C11Case, info: &mut Case) -> Result<(), String> {
     // build the history
     let mut sessions: Vec<SessionSpec> = Vec::new();
     let mut all_files: Vec<FileSpec> = Vec::new();
-    for files in &c.first {
-        sessions.push(SessionSpec { files: files.clone(), concurrent: false, yields: vec![], client: 0, restart_before: false });
+    for (fi, files) in c.first.iter().enumerate() {
+        sessions.push(SessionSpec { files: files.clone(), concurrent: false, yields: vec![], client: 0, restart_before: false, peer: c.first_peer.get(fi).copied().unwrap_or(false) });
         all_files.extend(files.iter().cloned());
     }
     let n_first = sessions.len();
@@ -156,7 +163,7 @@ fn oracle(c: &C11Case, info: &mut Case) -> Result<(), String> {
         }
         all_files.extend(files.iter().cloned());
         kinds.push(ks);
-        sessions.push(SessionSpec { files, concurrent: false, yields: vec![], client: 0, restart_before: l.restart_before });
+        sessions.push(SessionSpec { files, concurrent: false, yields: vec![], client: 0, restart_before: l.restart_before, peer: l.peer });
     }
     let h = History { pool_seed: c.pool_seed, n_ids: c.n_ids, salt_seed: 7, sessions, global_dedup: false };
 
@@ -229,6 +236,22 @@ fn oracle(c: &C11Case, info: &mut Case) -> Result<(), String> {
             if si > 0 {
                 let allowed = outside + metrics.defrag_prevented_dedup_bytes as u64;
                 if metrics.new_bytes as u64 > allowed {
+                    if std::env::var_os("XV_DEBUG").is_some() {
+                        for (fi, f) in s.files.iter().enumerate() {
+                            let m = f.finish.as_ref().map(|x| x.1.clone()).unwrap_or_default();
+                            let out: u64 = f.chunks.iter().filter(|c| !k.contains_key(&c.0)).map(|c| c.1).sum();
+                            eprintln!(
+                                "DEBUG file {fi}: {} bytes, {} chunks, outside-K {out} bytes; new {} deduped {} withheld {} ({} chunks) total {}",
+                                f.bytes.len(),
+                                f.chunks.len(),
+                                m.new_bytes,
+                                m.deduped_bytes,
+                                m.defrag_prevented_dedup_bytes,
+                                m.defrag_prevented_dedup_chunks,
+                                m.total_bytes
+                            );
+                        }
+                    }
                     return Err(format!(
                         "[sig:c11-not-deduplicated] session {si} ({} restart) reports new_bytes = {} of {total}, but only {outside} bytes of its chunks are absent from the store and {} bytes were withheld by fragmentation prevention",
                         if obs.sessions[si].client == 0 && s.cache_shards_after.is_empty() { "after" } else { "with/without" },
@@ -272,6 +295,9 @@ fn oracle(c: &C11Case, info: &mut Case) -> Result<(), String> {
             }
             if h.sessions[si].restart_before {
                 info.label("later-session-after-restart");
+            }
+            if h.sessions[..si].iter().any(|p| p.peer != h.sessions[si].peer) {
+                info.label("later-session-after-session-of-another-process");
             }
         }
     }
